@@ -5,6 +5,7 @@
 //   E seed feat nbody integrator enableflags disableflags cbmode nsteps solver cone
 //   H seed feat nbody enableflags stagename
 //   S seed feat nbody integrator enableflags skipstage solver cone
+//   V seed feat nbody integrator enableflags skipstage solver cone   (mj_inverseSkip vs mj_inverse)
 // stdout: one line per case: "OK ..." | "DIFF <fields>" | "ERR <msg>" | "UNKNOWN <stage>"
 #include "mjgen.h"
 #include "mjcmp.h"
@@ -145,6 +146,33 @@ int main(void) {
         else printf("OK\n");
       } else printf("ERR %s\n", mjg_last_error);
       mj_deleteData(a); mj_deleteData(b); mj_deleteData(c); mj_deleteModel(m);
+    } else if (op[0] == 'V') {
+      int integ, en, skip, solver, cone;
+      if (scanf("%d %d %d %d %d", &integ, &en, &skip, &solver, &cone) != 5) return 2;
+      mjModel* m = mjg_model(seed, feat, nb, NULL);
+      if (!m) { printf("ERR compile\n"); continue; }
+      m->opt.integrator = integ; m->opt.enableflags |= en;
+      m->opt.solver = solver; m->opt.cone = cone;
+      mjData* a = fresh_data(m); mjData* b = fresh_data(m);
+      mjg_rng r = {seed * 31 + 7}; mjg_random_state(m, a, &r, 1.0);
+      char buf[512];
+      if (MJG_TRY) {
+        for (int k = 0; k < 2; k++) mj_step(m, a);
+        mj_forward(m, a);                             // consistent qacc
+        mj_inverse(m, a);                             // the last FULL inverse call
+        mj_copyData(b, m, a);
+        // change only what the skipped stages do not read: qacc always, qvel when only the position stage is skipped
+        mjg_rng r2 = {seed * 77 + 1};
+        for (int i = 0; i < m->nv; i++) { a->qacc[i] = b->qacc[i] = a->qacc[i] + mjg_range(&r2, -1, 1); }
+        if (skip == mjSTAGE_POS) { for (int i = 0; i < m->nv; i++) { a->qvel[i] = b->qvel[i] = mjg_range(&r2, -1, 1); } }
+        mj_inverseSkip(m, a, skip, 0);
+        mj_inverse(m, b);
+        MJG_END;
+        int nd = mjcmp_data(m, a, b, buf, sizeof(buf), 2);
+        if (nd) printf("DIFF invskip n=%d %s\n", nd, buf);
+        else printf("OK nefc=%d\n", a->nefc);
+      } else printf("ERR %s\n", mjg_last_error);
+      mj_deleteData(a); mj_deleteData(b); mj_deleteModel(m);
     } else return 3;
   }
   return 0;
